@@ -4,16 +4,18 @@ SPEC = dict(
     level="exploration",
     level_text=("seeded search over operation histories x clock trajectories x close/reopen points of the real in-memory and "
                 "datastore-backed address books (both GC modes, cache on/off) on a virtual clock, compared after every "
-                "operation with a reference book written from the statement; sampling, not proof"),
+                "operation (half of the clock advances deliberately unobserved) with a reference book written from the statement; "
+                "fault: forward clock jumps (suspend/resume: the wall clock the books read runs ahead of the timers that drive their GC); "
+                "sampling, not proof"),
     level_note=("trusted: testing/synctest virtual clock, go-datastore's MapDatastore under simdisk, the reference book; "
                 "histories draw addresses from a 3-peer x 5-address universe; signed records list plain addresses only"),
-    technique="deterministic simulation: generated histories on a virtual clock vs executable reference model, mem/ds differential, reopen",
+    technique="deterministic simulation with fault injection (clock jumps): generated histories on a virtual clock vs executable reference model, mem/ds differential, reopen",
     design_ref="DESIGN.md section 6 (C09), section 9 (F1-F4)",
     quick_s=30, thorough_s=450,
     rule=("one run = one tape: stratum (GC-aligned instants | free clock), ds cache size 0|16, ds GC mode full-purge|lookahead, "
           "3-40 operations drawn from AddAddrs/SetAddrs (batches of 1-3 addresses, with duplicates and own/foreign /p2p "
           "suffixes), UpdateAddrs (all TTL class pairs incl. connected<->finite, zero and negative), ClearAddrs, "
-          "ConsumePeerRecord (seq 1-4 up/down/equal, wrong signer), clock advances 1 s - 3 h, close+reopen of the ds book; "
+          "ConsumePeerRecord (seq 1-4 up/down/equal, wrong signer), clock advances 1 s - 3 h (half of them unobserved; in the free stratum 1 in 5 is a forward clock JUMP instead: no timer fires), close+reopen of the ds book; "
           "after each operation Addrs, GetPeerRecord and PeersWithAddrs of both books are compared with the reference; "
           "final check 4 h later; non-trivial = at least 2 mutating operations; distinct = distinct sequence of "
           "(operation kind, per-peer live address count, record present) states"),
